@@ -45,3 +45,11 @@ pub(crate) fn fab_archive(hash_table: HashTable, block_table: BlockTable, block_
         attributes: None,
     }
 }
+
+impl Archive {
+    /// harness helper: an inner archive without loaded tables (lookups of special files find nothing)
+    pub(crate) fn verif_drop_tables(&mut self) {
+        std::mem::forget(self.hash_table.take());
+        std::mem::forget(self.block_table.take());
+    }
+}
